@@ -116,10 +116,10 @@ func TestGenC06(t *testing.T) {
 				startSend(0)
 				startSend(1)
 				keepRecv()
-				before := s.txCount[0] + s.txCount[1]
+				before := s.txTotal()
 				pump(true, &ds, 0)
 				decisions++
-				if s.txCount[0]+s.txCount[1] == before {
+				if s.txTotal() == before {
 					s.advance(100 * time.Millisecond)
 				}
 			}
